@@ -31,7 +31,8 @@ from harness.props import c11_logic, c11_mut, c11_pool, c11_stream
 
 PROP = "C11"
 FLAG = "q_value_error_escapes"
-HEADER = ("From TL Require Import Lib.Base Lib.GenTypes Model.ContainTypes Gen.ContainGen Model.Contain Model.ContainRun "
+FLAGS = [FLAG, "q_finalize_unguarded"]
+HEADER = ("From TL Require Import Lib.Base Lib.GenTypes Model.ContainTypes Gen.ContainGen Model.Contain Model.ContainRun Model.ContainWalk "
           "Actual.ContainActual.\n")
 VALUE_FAMILY_NAMES = {"ValueError", "UnicodeDecodeError", "UnicodeEncodeError", "UnicodeError", "JSONDecodeError"}
 COMMANDS = ["nesting", "srp", "magic-numbers", "dry", "improper-logging", "print-statements", "file-header", "file-placement", "lazy-ignores",
@@ -444,6 +445,13 @@ def logic_part(chk: Check, seed: int, n_stub: int, n_detect: int, stream_cases, 
     for s in staged:
         lines.append(c11_logic.coq_staged_case(*s))
         tags.append(("staged", s, None))
+    if only is None:
+        fuel, walks, wnotes = c11_logic.run_walk_cases(rng_for(seed, PROP, "walk"), max(40, n_stub // 4))
+        chk.notes.extend(wnotes)
+        chk.extra_cov["walker_frames_left"] = fuel
+        for w in walks:
+            lines.append(c11_logic.coq_walk_case(fuel, w[4], w[5], w[6]))
+            tags.append(("walk", w, fuel))
     return lines, tags
 
 
@@ -489,11 +497,15 @@ def judge_logic(chk: Check, lines, tags, stream_results, sd: Path):
             in_dom, impl_spec, ideal_spec, cand = v[0], v[1], v[2], v[3:]
             cand_all = cand if cand_all is None else [a and b for a, b in zip(cand_all, cand)]
             if in_dom and not impl_spec:
-                if cand[0] and ideal_spec and not cand[1]:
-                    chk.known_finding(FLAG, {"part": "stub scenario (injected partial rules)", "case": c, "impl": o})
+                relevant = [FLAGS[i] for i in range(len(FLAGS)) if not cand[1 + i]]
+                if cand[0] and ideal_spec and not relevant:
+                    relevant = list(FLAGS)      # only switching both off changes the output on this scenario
+                if cand[0] and ideal_spec:
+                    for k in relevant:
+                        chk.known_finding(k, {"part": "stub scenario (injected partial rules)", "case": c, "impl": o})
                 else:
                     chk.violation({"reason": "orchestrator output on injected partial rules violates the containment specification and the listed "
-                                             "quirk does not explain it", "model_actual_matches_impl": cand[0], "model_ideal_matches_spec": ideal_spec,
+                                             "quirks do not explain it", "model_actual_matches_impl": cand[0], "model_ideal_matches_spec": ideal_spec,
                                    "case": {"part": "stub", "case": c}, "impl": o})
             elif not any(cand):
                 chk.correspondence_broken({"level": "observable", "detail": "orchestrator output on injected partial rules matches no candidate "
@@ -514,6 +526,18 @@ def judge_logic(chk: Check, lines, tags, stream_results, sd: Path):
             if not all(v):
                 chk.violation({"reason": "the exception-class table of Model/Contain.v (mro) disagrees with CPython", "per_class": v,
                                "python": c11_logic.python_mro_table()})
+        elif kind == "walk":
+            lang, wkind, size, ty, d, cnt, res = c
+            chk.count(["walk", lang, wkind, size], d > o - 40)
+            chk.dist("walk:" + ("overflows" if res is None else "fits"))
+            if not v[2]:
+                chk.broken.append("Model:skeleton depth mismatch in judge_walk")
+            elif not v[0]:
+                chk.violation({"reason": "walk_tree disagrees with Model/ContainWalk.v (one frame per tree level: overflow exactly beyond the frames left)",
+                               "case": {"part": "walk", "lang": lang, "shape": wkind, "size": size, "node_type": ty, "depth": d, "count": cnt,
+                                        "frames_left": o, "impl": res}})
+            elif not v[1]:
+                chk.known_finding("q_walk_recursive", {"part": "walker", "lang": lang, "shape": wkind, "size": size, "depth": d, "frames_left": o})
         elif kind == "staged":
             chk.count(["staged", c[0], c[1]], bool(c[1]))
             chk.dist("staged:" + c[0])
@@ -521,7 +545,7 @@ def judge_logic(chk: Check, lines, tags, stream_results, sd: Path):
                 chk.violation({"reason": f"compute/store order of a cross-file rule differs from {c[0]} (Gen) as interpreted by Model.run_ops",
                                "failing_analyses": c[1], "impl_raised": c[2], "impl_stored": c[3], "agree": v})
     if cand_all is not None and not cand_all[0]:
-        names = ["actual", f"actual without {FLAG}", "ideal"]
+        names = ["actual"] + [f"actual without {f}" for f in FLAGS] + ["ideal"]
         alt = [i for i, ok in enumerate(cand_all) if ok]
         if alt:
             chk.notes.append("implementation no longer matches the claimed quirk vector but matches: " + names[alt[0]] +
@@ -556,12 +580,12 @@ def run(tier: str, seed: int, replay: str | None = None) -> int:
         "hook H1 (_verif_failure_tap in src/orchestrator/core.py) as the observer of swallowed exceptions; theorem C11_failure_log_complete shows the "
         "model's three containment sites log every swallowed failure, that the code has no fourth site is checked by the generated shape items",
         "the 'hang' clause is calibrated in every run: CPU time of the worker process only, compared with a reference workload (the healthy files alone, measured twice in the same worker) scaled by total size; hang = 100 x that (20 x..100 x is a note and never decides the exit status); a worker is killed after 100 CPU s; a CLI command may take 100 x the wall time of a reference CLI run of the same moment (at least 150 s)",
-        "finalize() is assumed not to raise (hypothesis final_safe of the theorems; no input making it raise was found; C11_finalize_failure_crashes "
-        "states what happens otherwise)",
+        "a failing finalize() is a modelled case (flag q_finalize_unguarded): the main theorems need no hypothesis about it; it is exercised with injected "
+        "rules only - no file content making a real finalize() raise was found by the stream",
     ]
     from harness.common import install_failure_tap
     install_failure_tap()      # keeps the orchestrator's logger.exception output of the stub scenarios off stderr
-    chk.build(["theories/Props/C11.v"], ["ContainGen"], known_v=["theories/Props/C11Known.v"])
+    chk.build(["theories/Props/C11.v"], ["ContainGen", "CensusGen"], known_v=["theories/Props/C11Known.v"])
     phases = {"build": round(time.time() - chk.t0, 1)}
     scale = chk.budget_scale()
     quick = tier == "quick"
